@@ -52,12 +52,43 @@ def fmt_vec(v):
     return "{" + ", ".join("%s:%+d" % (c, d) for c, d in v) + "}" if v else "{}"
 
 
-def build(P):
+def build(P, lock2_same=False):
     M = balance.LockModel(P)
     ops = [s for s in P.slots() if s.split(".")[0] in OPS_PREFIX] + list(OPS_EXTRA)
     B = balance.Balance(P, M, ops_slots=ops, tokens=TOKENS, special=SPECIAL)
+    B.lock2_same = lock2_same
     B.solve()
     return M, B, ops
+
+
+def rule_lock2_alias(P, B, prefix):
+    """EVLOCK_LOCK2/UNLOCK2 lock (unlock) the second lock only when it is a different object.  A function that pairs a LOCK2 with two single unlocks, or two
+    single locks with an UNLOCK2, is balanced when the locks differ and unbalanced when both buffers share one lock (bufferevent pairs, threadsafe
+    bufferevents): so the analysis is repeated in the world where the two locks are the same object and every function using the pair macros must have the same
+    net effect in both worlds."""
+    r = Rule(prefix + "-lock2-alias", "K1", "functions using EVLOCK_LOCK2/UNLOCK2 have the same net lock effect whether or not the two locks are one object", floor=3)
+    users = [f for f in P.all_fns if any(is_e(q, "var") and q[1].endswith("_tmplock_") for b in f.branch_blocks() for q in walk(b.term["cond"]))]
+    if not users:
+        r.brk("no function uses the LOCK2/UNLOCK2 macros")
+        return r
+    M2, B2, _ = build(P, lock2_same=True)
+    for f in users:
+        s1, s2 = B.summary_of(f), B2.summary_of(f)
+        if s1 is None or s2 is None:
+            continue
+        def net(sm):
+            # net effect counted in lock operations per class, normalised: in the alias world one LOCK2 is one operation
+            return sorted(set(fmt_vec(v) for v in sm.deltas()))
+        d1, d2 = net(s1), net(s2)
+        zero1 = all(all(d == 0 for c_, d in v) for v in s1.deltas())
+        zero2 = all(all(d == 0 for c_, d in v) for v in s2.deltas())
+        r.inst(f.name, {"fn": f.name, "file": f.file, "net_effect_distinct_locks": d1, "net_effect_same_lock": d2})
+        if zero1 != zero2:
+            r.bad("K1:%s:lock2-alias-imbalance" % f.name, "%s:%d" % (f.file, f.line), f.name,
+                  "net lock effect is %s when the two locks are distinct objects but %s when both arguments share one lock (EVLOCK_LOCK2/UNLOCK2 touch a shared lock once): "
+                  "a single-lock operation is paired with a LOCK2/UNLOCK2 — with a shared lock (bufferevent pair, threadsafe bufferevent) the function returns with it %s" % (
+                      d1, d2, "still held" if not zero2 else "released too often"))
+    return r
 
 
 def classify(P, B, ops):
@@ -294,6 +325,8 @@ def run_on(P, rules_prefix="C08", selftest=False):
     rules.append(r_re)
 
     # ---------------- structural side conditions of the special cases
+    if not selftest:
+        rules.append(rule_lock2_alias(P, B, rules_prefix))
     r_sp = Rule(rules_prefix + "-special", "K2/K4", "side conditions of the modelled idioms: EVLOCK_TRY_LOCK_ shape, partner token writers", floor=3)
     if P.has("EVLOCK_TRY_LOCK_"):
         f = P.fn("EVLOCK_TRY_LOCK_")
